@@ -461,6 +461,10 @@ class Evaluator:
             if n.get("callee") and n["callee"].get("dispatch") == "direct" and n["callee"]["mn"] in self.prog.functions and getattr(self, "inline_static", True):
                 g0 = self.prog.functions[n["callee"]["mn"]]
                 auto = bool(g0.d.get("static")) and g0.kind == "function" and g0 is not f and getattr(self, "_depth", 0) < 4
+                # a non-virtual member of the class being folded is part of the same implementation: helpers that a
+                # refactoring splits off (or merges) do not change what is folded
+                if not auto and g0.cls and g0.cls == f.cls and g0 is not f and getattr(self, "inline_own_class", True) and getattr(self, "_depth", 0) < 8:
+                    auto = True
             if indirect_target and len(indirect_target) == 1 and (nm in inl or (indirect_target[0].d.get("static") and indirect_target[0].kind == "function")):
                 auto = True
             if (nm in inl or auto) and ((n.get("callee") and n["callee"]["mn"] in self.prog.functions) or indirect_target):
